@@ -259,12 +259,21 @@ def run(corrupt=None):
         for kind_, it in issues[:100]:
             if kind_ in ("stale", "exception", "inconsistent"):
                 ck.violation("C06|%s|%s" % (kind_, it["act"]["name"]), "%s in an in-place walk after %s: %s" % (kind_, json.dumps(it["act"]), it["error"]), it)
-        for k in unmatched[:5]:
+        if unmatched and corrupt != "edge":
+            # re-validate the rejected steps comparing targets as abstract forests only: differences in clone names alone are
+            # drift of the specification's naming discipline; another forest (data lost, moved, a clone elsewhere) means the
+            # edit did not produce the tree whose values the caches are supposed to hold
+            rej = [edges[k - 1] for k in unmatched]
+            r2, un2 = treeadt.validate_edges("c06_walk_abs_%d%s" % (n, kind), rej, list(range(n)), abstract_only=True)
+            hard = {id(rej[k - 1]) for k in un2}
+            for e in rej[:8]:
+                if id(e) in hard:
+                    ck.violation("C06|edge_not_in_spec|%s" % e["act"]["name"], "after %s the tree is not the one the edit is specified to produce (TreeADT.tla): the values it holds belong to another assignment" % json.dumps(e["act"]), {"edge": e})
+                else:
+                    ck.model_drift("recorded step %s matches the specification up to clone names" % json.dumps(e["act"]))
+        for k in (unmatched[:5] if corrupt == "edge" else []):
             e = edges[k - 1]
-            if corrupt == "edge":
-                ck.violation("C06|selftest|unmatched", "corrupted step rejected", {"edge": e})
-            else:
-                ck.model_drift("recorded step not a TreeADT step: %s" % json.dumps(e["act"]))
+            ck.violation("C06|selftest|unmatched", "corrupted step rejected", {"edge": e})
         ck.extra["walks_n%d_%s" % (n, kind)] = {"steps": len(edges), "unmatched": len(unmatched), "issues": len(issues)}
         if edges:
             ck.sample({"walk_step": edges[-1]})
